@@ -12,7 +12,7 @@ from . import c01, c02
 from .toposort_rules import check_toposort
 
 PROP = "C20"
-FLOORS = {"C20.R1": 25, "C20.R2": 25, "C20.R3": 30, "C20.R4": 4, "C20.R5": 6, "C20.R6": 3, "C20.R7": 1, "C20.R8": 6}
+FLOORS = {"C20.R1": 25, "C20.R2": 25, "C20.R3": 30, "C20.R4": 4, "C20.R5": 6, "C20.R6": 3, "C20.R7": 1, "C20.R8": 4}
 META = {
     "explanation": "Build independence: Cython runs __cinit__ base-first, the pure-Python simulation in BaseRef.__init__ runs them "
                    "derived-first, so along every MRO each field is assigned by exactly one __cinit__, no __cinit__ reads a field "
